@@ -153,7 +153,13 @@ def check_interval(vec, a, b):
         # the argument lists are the caller's: once the result is there the caller re-uses them for something else; a
         # later search with equal scores must not depend on that
         own_scores, own_elems = list(vec), list(elems)
-        got = outcome(lambda: [(list(c), sc) for c, sc in f(own_elems, own_scores, a, b)])
+        def call():
+            raw = f(own_elems, own_scores, a, b)
+            conv = [(list(c), sc) for c, sc in raw]
+            if isinstance(raw, list):
+                raw.append("the caller goes on using the list it got")     # the result belongs to the caller
+            return conv
+        got = outcome(call)
         for k in range(len(own_scores)):
             own_scores[k] = own_scores[k] * 3 + 1
         own_elems.reverse()
@@ -290,11 +296,11 @@ def run_shard(spec):
                         report(bad, {"what": "interval", "vec": big, "a": a, "b": b})
         if i % 23 == 0:
             # many elements, lazily: more combinations than could ever be listed; only the beginning of the order is used
-            bad = check_many_elements(33 + i % 17, i)
+            bad = check_many_elements(33 + i % 40, i)
             res.evaluations += 1
-            res.count("runs_with_33_to_49_elements")
+            res.count("runs_with_33_to_72_elements")
             if bad:
-                report(bad, {"what": "many", "n": 33 + i % 17, "salt": i})
+                report(bad, {"what": "many", "n": 33 + i % 40, "salt": i})
         if i % 301 == 0:
             res.sample({"scores": vec, "keys": list(KEYS), "intervals": f"all [a,b) with 0<=a,b<={sum(vec) + 2}"})
     res.count("repo_line_events", instr.S.total)
